@@ -8,7 +8,7 @@ from contracts import report_native, c15_output
 def custom_native(ip, runner):
     code = report_native.C15 % {'native': os.path.join(VERIF, 'native')}
     return [native_bounded(runner, 'option-invariance', 'status and findings identical across plain/batch/verbose/colour/JSON; raising the minimum level only removes lines; JSON compact == indented; byte-identical under different hash seeds',
-                           code, '7 peers (4 database slices, duplicates/blank/long names, legacy, gss) x 5 text option sets x JSON compact/indented x levels {warn, fail} x {plain, batch, verbose}; 4 hash seeds',
+                           code, '10 peers (4 database slices, duplicates/blank/long names, legacy, gss, 3 seeded random; 37 in the thorough tier) x 5 text option sets x JSON compact/indented x levels {warn, fail} x {plain, batch, verbose}; 7 hash seeds',
                            'ssh_audit:output')]
 
 
